@@ -199,6 +199,11 @@ func (g *gen) genTime(allowZero bool) time.Time {
 	if allowZero && g.r.Intn(25) == 0 {
 		return time.Time{}
 	}
+	if allowZero && g.r.Intn(25) == 0 {
+		// not the zero time, but normalised (sub-millisecond part dropped) it is: validity must be judged on the
+		// normalised value by add and update alike
+		return time.Time{}.Add(time.Duration(1+g.r.Intn(999_999)) * time.Nanosecond).In(zones[g.r.Intn(len(zones))])
+	}
 	base := cq.Epoch.Add(time.Duration(1+g.r.Intn(3)) * time.Minute)
 	if g.r.Intn(4) == 0 {
 		base = base.Add(time.Duration(g.r.Intn(3)) * time.Millisecond)
